@@ -23,13 +23,13 @@ def check(ctx):
                                "replay_obj": {"property": "C05", "reason": r.reason, "signature": sig,
                                               "segment": [json.loads(x) for x in seg[:idx]]}})
     cov = cm.evidence(mc, gstats, summ, lines, nseg, nev, drift)
-    # the same property on real nodes over loopback TCP (public API, perturbed schedules)
+    # the same property on real nodes over loopback TCP / WebSocket / QUIC (public API, perturbed schedules)
     nsumm, nnseg, nnev, nviol = cm.net_pipeline(ctx)
     violations += nviol
     cov["real_network"] = dict(nsumm, node_logs_validated=nnseg, events_validated=nnev)
     cov["traces_validated_against_impl"] += nnseg
     return conclude(ctx, "model_checking", cov, violations, ASSUME + [
-        "real-network runs: 3 nodes per world on 127.0.0.1, connection-open timeout 1 s, quiescence = no command/event on any "
+        "real-network runs: 3 nodes per world on 127.0.0.1 listening on TCP, WebSocket and QUIC (a world dials over one of them or a mix), connection-open timeout 1 s, quiescence = no command/event on any "
         "node for 8 s; worlds that do not calm down within 60 s or whose runtime was starved (>400 ms timer lag) are not judged"])
 
 
